@@ -19,6 +19,30 @@ use crate::{guard, observe, text_arg, BADINPUT, BADOP, ERR, PANIC};
 
 // ---------------------------------------------------------------- laws
 
+/// `num:N` = `InitializationVector::Number(N)`, `missing` = `Missing` (values only the API can build), else `FromStr`.
+fn iv_from(s: &str) -> Result<InitializationVector, ()> {
+    if let Some(n) = s.strip_prefix("num:") {
+        return n.parse::<u128>().map(InitializationVector::Number).map_err(|_| ());
+    }
+    if s == "missing" {
+        return Ok(InitializationVector::Missing);
+    }
+    s.parse::<InitializationVector>().map_err(|_| ())
+}
+
+/// A key attribute list, optionally followed by `#ivnum=N`: the public field `iv` is then set to `Number(N)`.
+fn key_from(s: &str) -> Result<DecryptionKey<'_>, ()> {
+    let (text, num) = match s.split_once("#ivnum=") {
+        Some((t, n)) => (t, Some(n.parse::<u128>().map_err(|_| ())?)),
+        None => (s, None),
+    };
+    let mut k = DecryptionKey::try_from(text).map_err(|_| ())?;
+    if let Some(n) = num {
+        k.iv = InitializationVector::Number(n);
+    }
+    Ok(k)
+}
+
 fn hash_of<T: Hash>(x: &T) -> u64 {
     let mut h = DefaultHasher::new();
     x.hash(&mut h);
@@ -89,7 +113,7 @@ fn laws3_eq<T: PartialEq + Clone>(a: &T, b: &T, c: &T, dump: impl Fn(&T, &mut St
 }
 
 /// How a `KeyFormatVersions` law text failed.
-enum KfvError {
+pub(crate) enum KfvError {
     /// The `#k[+v]` suffix is not well formed (harness syntax) -> `badinput`.
     Syntax,
     /// `FromStr` rejected the versions part -> `err`.
@@ -100,6 +124,17 @@ enum KfvError {
 /// literal `empty` = `KeyFormatVersions::new()`), then `.truncate(k)`, then
 /// `.push(v)`.  The part of the buffer behind the length keeps stale data.
 fn key_format_versions(text: &str) -> Result<KeyFormatVersions, KfvError> {
+    key_format_versions_from(text, false)
+}
+
+/// The notation of [`key_format_versions`]; with `allow_new` (the `api` op)
+/// the versions part may also be `new:a/b/c` (`new:` alone = no element):
+/// `KeyFormatVersions::new()` followed by `push(a)`, `push(b)`, ... so that
+/// lists `FromStr` would not produce (all zeros) can be built through the API.
+pub(crate) fn key_format_versions_from(
+    text: &str,
+    allow_new: bool,
+) -> Result<KeyFormatVersions, KfvError> {
     fn dec<T: std::str::FromStr>(s: &str) -> Result<T, KfvError> {
         if s.is_empty() || !s.bytes().all(|c| c.is_ascii_digit()) {
             return Err(KfvError::Syntax);
@@ -119,8 +154,17 @@ fn key_format_versions(text: &str) -> Result<KeyFormatVersions, KfvError> {
         }),
     };
 
+    let pushed = if allow_new { versions.strip_prefix("new:") } else { None };
     let mut x = if versions == "empty" {
         KeyFormatVersions::new()
+    } else if let Some(items) = pushed {
+        let mut x = KeyFormatVersions::new();
+        if !items.is_empty() {
+            for item in items.split('/') {
+                x.push(dec::<u8>(item)?);
+            }
+        }
+        x
     } else {
         versions
             .parse::<KeyFormatVersions>()
@@ -198,11 +242,11 @@ pub(crate) fn op_laws(args: &[&str]) -> String {
             }
         }
         "InitializationVector" => {
-            laws_case!(laws3, ta, tb, tc, s => s.parse::<InitializationVector>(), observe::initialization_vector)
+            laws_case!(laws3, ta, tb, tc, s => iv_from(s), observe::initialization_vector)
         }
         "Value" => laws_case!(laws3, ta, tb, tc, s => Value::try_from(s), observe::value),
         "DecryptionKey" => {
-            laws_case!(laws3, ta, tb, tc, s => DecryptionKey::try_from(s), observe::key)
+            laws_case!(laws3, ta, tb, tc, s => key_from(s), observe::key)
         }
         "ExtXKey" => laws_case!(laws3, ta, tb, tc, s => ExtXKey::try_from(s), observe::xkey),
         "ExtInf" => laws_case!(laws3, ta, tb, tc, s => ExtInf::try_from(s), observe::inf),
